@@ -494,8 +494,20 @@ def gen_guards():
               "frame.rs `if window_size OP MAX_WINDOW_SIZE` (then-branch = not too big)"))
     G.append(("windowOverLimit", guard(fn_body(fd, "check_window_size", "guards"), r"if\s+window_size\s*" + OPRE + r"\s*max_window_size", "window_size ? max_window_size"),
               "frame_decoder.rs check_window_size `if window_size OP max_window_size` (then-branch = reject)"))
-    G.append(("blockSizeTooLarge", guard(fn_body(bd, "block_content_size", "guards"), r"if\s+val\s*" + OPRE + r"\s*MAX_BLOCK_SIZE", "val ? MAX_BLOCK_SIZE"),
-              "block_decoder.rs block_content_size `if val OP MAX_BLOCK_SIZE` (then-branch = reject)"))
+    # (anchored up to the opening brace: `if val > MAX_BLOCK_SIZE * 2 {` or `if false && val > …` must NOT match)
+    G.append(("blockSizeTooLarge", guard(fn_body(bd, "block_content_size", "guards"), r"if\s+val\s*" + OPRE + r"\s*MAX_BLOCK_SIZE\s*\{", "val ? MAX_BLOCK_SIZE"),
+              "block_decoder.rs block_content_size `if val OP MAX_BLOCK_SIZE {` (then-branch = reject)"))
+    # C05: the three guards that cap what a compressed block may regenerate
+    se = strip_comments(read("ruzstd/src/decoding/sequence_execution.rs"))
+    G.append(("literalsTooLarge", guard(fn_body(bd, "decompress_block", "guards"), r"if\s+section\.regenerated_size\s*" + OPRE + r"\s*MAX_BLOCK_SIZE\s*\{", "section.regenerated_size ? MAX_BLOCK_SIZE"),
+              "block_decoder.rs decompress_block `if section.regenerated_size OP MAX_BLOCK_SIZE {` (then-branch = reject)"))
+    ex = fn_body(se, "execute_sequences", "guards")
+    if not re.search(r"let\s+size_after_seq\s*=\s*u64::from\(seq_sum\)\s*\+\s*u64::from\(seq\.ll\)\s*\+\s*u64::from\(seq\.ml\)\s*;", ex):
+        raise ExtractError("extract:guards:execute_sequences size_after_seq definition")
+    G.append(("execSeqTooLarge", guard(ex, r"if\s+size_after_seq\s*" + OPRE + r"\s*u64::from\(MAX_BLOCK_SIZE\)\s*\{", "size_after_seq ? MAX_BLOCK_SIZE"),
+              "sequence_execution.rs `if size_after_seq OP u64::from(MAX_BLOCK_SIZE) {` before a sequence is expanded (then-branch = reject)"))
+    G.append(("execRestTooLarge", guard(ex, r"if\s+seq_sum as usize\s*\+\s*rest_literals\.len\(\)\s*" + OPRE + r"\s*MAX_BLOCK_SIZE as usize\s*\{", "seq_sum + rest_literals ? MAX_BLOCK_SIZE"),
+              "sequence_execution.rs `if seq_sum as usize + rest_literals.len() OP MAX_BLOCK_SIZE as usize {` before the trailing literals are pushed (then-branch = reject)"))
     m = re.search(r"if\s+compressed_size\s*(?P<op1>>=|<=|==|!=|>|<)\s*block_size as usize\s*\|\|\s*compressed_size\s*(?P<op2>>=|<=|==|!=|>|<)\s*MAX_BLOCK_SIZE as usize", fa)
     if not m:
         raise ExtractError("extract:guards:compress_fastest raw fallback")
